@@ -62,11 +62,12 @@ fn c04_long_walk(ctx: &Ctx, l: &mut Local, root: &Pos, seed: u64, plies: usize) 
     let mut p = root.clone();
     let mut snaps: Vec<Snapshot> = vec![];
     let mut counted: Vec<bool> = vec![];
+    let mut rets: Vec<Option<u64>> = vec![];
     let mut ems: Vec<ChessMove> = vec![];
     for m in &path {
         // register the position in the repetition bookkeeping before some moves, so that it is part of the state
-        let c = rng.chance(0.3);
-        if c { b.count_current_position(); }
+        let c = rng.chance(if policy == Policy::Shuffle { 0.8 } else { 0.3 });
+        rets.push(if c { Some(b.count_current_position() as u64) } else { None });
         counted.push(c);
         snaps.push(Snapshot::take(&b));
         let em = engine_move(m, p.turn);
@@ -74,7 +75,7 @@ fn c04_long_walk(ctx: &Ctx, l: &mut Local, root: &Pos, seed: u64, plies: usize) 
         if !matches!(applied, Ok(Ok(()))) {
             // a failing or panicking apply is judged by C03 / C16, not here
             l.inc(if applied.is_err() { "apply_panicked_(C16_business)" } else { "apply_failed_(C03_business)" });
-            counted.pop(); snaps.pop();
+            counted.pop(); snaps.pop(); rets.pop();
             if applied.is_err() { return; }
             if c { b.uncount_current_position(); }
             break;
@@ -86,6 +87,25 @@ fn c04_long_walk(ctx: &Ctx, l: &mut Local, root: &Pos, seed: u64, plies: usize) 
     l.set_max("longest_sequence_unwound", ems.len() as u64);
     l.set_max("highest_half_move_clock_unwound", snaps.iter().map(|s| s.halfmove).max().unwrap_or(0));
     let n = ems.len();
+    // take the second half back and play it again: a state that was restored exactly behaves the same the second
+    // time (the registrations report the counts they reported the first time)
+    if n >= 4 {
+        let half = n / 2;
+        for k in (half..n).rev() { b.toggle_turn(); let _ = ems[k].undo(&mut b); if counted[k] { b.uncount_current_position(); } }
+        for k in half..n {
+            if counted[k] {
+                let again = b.count_current_position() as u64;
+                l.inc("registrations_repeated_after_a_take_back");
+                if Some(again) != rets[k] {
+                    ctx.violation("c04:behaviour-differs-after-take-back", &format!("{}-ply sequence from {}: registering the position before ply {} reported {:?} the first time and {} after the plies {}..{} had been taken back and replayed", n, root.to_fen(), k + 1, rets[k], again, half + 1, n),
+                        json!({"root_fen": root.to_fen(), "path": path_str(root, &path[..n]), "taken_back_to": half, "ply": k, "walk_seed": seed, "walk_plies": plies}));
+                    return;
+                }
+            }
+            if !matches!(par::guarded(|| ems[k].apply(&mut b)), Ok(Ok(()))) { l.inc("replayed_apply_failed_(C03_business)"); return; }
+            b.toggle_turn();
+        }
+    }
     for k in (0..n).rev() {
         b.toggle_turn();
         let r = ems[k].undo(&mut b);
@@ -141,12 +161,16 @@ pub fn c04(o: &Opts) -> i32 {
     let mut units: Vec<U> = vec![];
     let mut r = Rng::new(o.seed).fork(tag("c04"));
     if let Some(path) = &o.replay {
-        let case = case_from_replay(&load_replay(path));
+        let raw = load_replay(path);
+        let case = case_from_replay(&raw);
+        if let (Some(ws), Some(wp)) = (raw["walk_seed"].as_u64(), raw["walk_plies"].as_u64()) { units.push(U::Long(case.root.clone(), ws, wp as usize)); }
         units.push(U::Dfs(case.root.clone(), (case.path.len() as u32).clamp(1, 4)));
         units.push(U::Boundary(vec![case.pos.clone(), case.root.clone()], true));
     } else {
         for (i, (p, _)) in corpus.iter().enumerate() { units.push(U::Dfs(p.clone(), if p.piece_count() > 16 { if q { 2 } else { 3 } } else { 3 })); if i % 3 == 0 { units.push(U::Long(p.clone(), o.seed + i as u64, 200)); } }
         for i in 0..if q { 60 } else { 600 } { let root = if i % 3 == 0 { Pos::start() } else { gen::random_setup(&mut r) }; units.push(U::Long(root, o.seed * 31 + i, 100 + r.below(300))); }
+        // shuffles on sparse material: positions recur many times, nearly all of them registered
+        for i in 0..if q { 40 } else { 400 } { let root = if i % 4 == 0 { Pos::from_fen("8/8/4k3/3Nn3/3nN3/4K3/8/8 w - - 0 1").unwrap() } else { gen::random_ending(&mut r) }; units.push(U::Long(root, (o.seed * 977 + i) * 5 + 4, 200 + r.below(200))); }
         let mut chunk = vec![];
         for (i, (p, _)) in corpus.iter().enumerate() { chunk.push(p.clone()); if chunk.len() == 8 { units.push(U::Boundary(std::mem::take(&mut chunk), i % 16 == 7)); } }
         for _ in 0..if q { 20 } else { 200 } { units.push(U::Boundary((0..8).map(|_| gen::random_setup(&mut r)).collect(), r.chance(0.2))); }
